@@ -17,8 +17,8 @@ def fill(P):
     P("C04", "other",
       "contract-based deductive verification (validate_score_vector, score_profile_from_rankings with its three nested loops, add_missing_cands, condense_ballots, mentions, elect_cands_from_set_ranking, Plurality/Borda._run_step) + bounded exact-arithmetic oracle",
       "score_profile_from_rankings is proved for all profiles and exact score vectors: each candidate's score = sum over ballots of weight x the average of the zero-padded vector over its (tied) position, on the ballots completed by add_missing_cands "
-      "(proved) and condensed (proved: every additive per-ranking functional is preserved); first_place_votes is proved as the positional score for (1,0,...,0); Plurality/Borda._run_step are proved against the callee contracts; "
-      "to_float mode, borda_scores (range with a step) and score_dict_to_ranking (sorted) are covered by the bounded exact-arithmetic oracle only.",
+      "(proved) and condensed (proved: every additive per-ranking functional is preserved); first_place_votes / borda_scores are proved as the positional scores for (1,0,...,0) / (n,n-1,...,1); Plurality/Borda._run_step are proved against the callee contracts; "
+      "to_float mode and score_dict_to_ranking (sorted) are covered by the bounded exact-arithmetic oracle only.",
       "first_place_votes / score_dict_to_ranking stay assumed contracts inside the step proofs (opaque fpv_of / ranking_of); PreferenceProfile(...) assumed (A-PYD).", "DESIGN.md 4-C04, 8.2")
 
     P("C05", "other",
